@@ -50,6 +50,9 @@ func c01Row(id int, ia, ib int) map[string]any {
 	}
 	// native integers whose %v text differs from the text of the equal float64 constant (1e+06)
 	row["K"] = []int{5, 1000000, 2000000, 1000001}[(ia+ib)%4]
+	// a column of a narrow unsigned type, compared with constants outside the type's range
+	row["u8"] = []uint8{1, 44, 200, 255}[(ia+ib)%4]
+	row["i8"] = []int8{-128, -1, 44, 127}[(ia+2*ib)%4]
 	// values and constants that single precision cannot hold
 	row["f"] = []float64{0.1, 0.3, 2.7, 16777217, 16777216, 0.30000000000000004}[(ia+2*ib)%6]
 	if ib%3 == 0 {
@@ -82,6 +85,17 @@ func c01Atoms() (all []Expr, rep []Expr, small []Expr) {
 			all = append(all, Cmp{op, k, num(cst)}, Cmp{op, num(cst), k})
 		}
 		all = append(all, Cmp{op, k, a})
+	}
+	for _, op := range ops {
+		for _, cst := range []float64{300, 256, -1, 44, 255.5} {
+			all = append(all, Cmp{op, Col{"u8"}, num(cst)})
+		}
+		for _, cst := range []float64{300, -129, 128, -1} {
+			all = append(all, Cmp{op, Col{"i8"}, num(cst)})
+		}
+	}
+	for _, neg := range []bool{false, true} {
+		all = append(all, In{X: Col{"u8"}, List: []Expr{num(300), num(1)}, Neg: neg}, Between{X: Col{"u8"}, Lo: num(-1), Hi: num(300), Neg: neg}, Between{X: Col{"i8"}, Lo: num(-200), Hi: num(0), Neg: neg})
 	}
 	fcol := Col{"f"}
 	for _, op := range ops {
